@@ -45,7 +45,8 @@ Effective(ln) ==
 Serializable(ln) ==
   \E ord \in Orders(Effective(ln)) :
      LET f == FoldApply(NormState(ln.db0), ln.reqs, ln.resps, ord)
-     IN f.ok /\ f.s = NormState(ln.final)
+     \* equal up to how far the generations the requests move have moved (8.16)
+     IN f.ok /\ SameUpToRetriedGens(NormState(ln.db0), f.s, NormState(ln.final))
 
 \* states reachable by applying some of the successful requests in some order
 RECURSIVE PrefixStates(_, _, _)
